@@ -48,16 +48,21 @@ def translate(ctx):
              one_tick and same_tick and next_tick, "create_tick once=%s same tick for all=%s complete_next_tick=%s" % (one_tick, same_tick, next_tick))]
 
 
+_common = dict(lean_project="HvHydro2", driver="hvdrv_hydro2")
 SPEC = dict(
     id="C31",
-    lean_project="HvHydro2", props_module="HvHydro2.Props.C31", driver="hvdrv_hydro2",
-    harness="hv_hydro2", bin="hv_hydro2", mode="c31",
-    cases={"quick": 600, "thorough": 12000},
-    translate=translate,
+    parts=[
+        dict(_common, props_module="HvHydro2.Props.C31", harness="hv_hydro2", bin="hv_hydro2", mode="c31",
+             cases={"quick": 600, "thorough": 12000}, translate=translate),
+        # simulator tie: the slice programs compiled with the simulator backend, every schedule (exhaustive)
+        dict(_common, harness="hv_hydro2_sim", bin="hv_hydro2_sim", mode="c31sim",
+             cases={"quick": 4, "thorough": 12}),
+    ],
+    harness_timeout=7200,
     level="proof",
     design_ref="DESIGN.md §5 C31",
-    technique="Lean 4 proofs over a hand-written model of the sliced! expansion with explicit hook decisions + pinned macro text (T) + production-generated slice programs under random tick partitions (C)",
-    level_text=("Partial (the macro expansion is modelled by hand; the simulator is not run). Theorems: "
+    technique="Lean 4 proofs over a hand-written model of the sliced! expansion with explicit hook decisions + pinned macro text (T) + production-generated slice programs under random tick partitions (C, part 1) + the same slice programs compiled with the simulator backend and run under CompiledSim::exhaustive, every explored execution judged by the property oracle and by the model (C, part 2)",
+    level_text=("Partial (the macro expansion is modelled by hand). Theorems: "
                 "slice_batches_partition_input — for every release schedule of a batch hook (buffer, release a prefix; "
                 "production = release all) the released batches followed by the remaining buffer are exactly the "
                 "arrivals in order, and prod_batches_are_arrivals; snapshots_monotone — for every decision script of a "
@@ -65,19 +70,40 @@ SPEC = dict(
                 "the released versions never go back (invariant proof, also never from the future); prod_hooks_same_point "
                 "— in production a batch hook and a snapshot hook of count() of the same source are cut at the same point; "
                 "state_carries_to_next_slice / slice_outputs_use_carried_state — slice t+1 sees exactly what slice t "
-                "assigned, slice 0 the initial value, with closed forms for the two corpus bodies. T: the non-test text of "
-                "sliced/mod.rs and sliced/style.rs and the tick-cycle constructors is pinned, and 'one create_tick, every "
-                "hook sliced against it, complete_next_tick' is re-read from the source each run. C: six sliced! programs "
-                "(batch only; batch+snapshot of the same source; two batch hooks; use::state counter; use::state_null "
-                "previous-last; keyed snapshot lookups) compiled through generate_embedded, run under random tick "
-                "partitions on fresh instances, diffed per tick against the compiled model; oracles on the real code: "
-                "batches partition the input in order, snapshots never go back / never from the future, "
-                "count-snapshot = elements batched so far, state carried exactly one slice."),
-    level_note=("Not covered: SimBuilder::batch and the simulator schedules (the hook models follow sim/runtime.rs but are "
-                "tied to production only, where every hook releases everything — C36 ties the simulator hooks); "
-                "hooks_same_point is proved for the production schedule only (in the simulator the hooks of one slice "
-                "decide independently inside one tick); NoOrder batch hooks are not modelled."),
+                "assigned, slice 0 the initial value, with closed forms for the two corpus bodies; "
+                "simBatchesOk_iff_partition / simSnapsOk_iff / model_snapshots_accepted — the verdict the driver gives on a "
+                "recorded simulator execution (the release schedule read off the observed batches, replayed through the "
+                "batch-hook model runBatches) is exactly the partition clause, the snapshot verdict is exactly 'never back, "
+                "never from the future', and everything the model's snapshot hook can release is accepted. "
+                "T: the non-test text of sliced/mod.rs and sliced/style.rs and the tick-cycle constructors is pinned, and 'one "
+                "create_tick, every hook sliced against it, complete_next_tick' is re-read from the source each run. "
+                "C part 1 (production): six sliced! programs (batch only; batch+snapshot of the same source; two batch hooks; "
+                "use::state counter; use::state_null previous-last; keyed snapshot lookups) compiled through "
+                "generate_embedded, run under random tick partitions on fresh instances, diffed per tick against the "
+                "compiled model; oracles on the real code: batches partition the input in order, snapshots never go back / "
+                "never from the future, count-snapshot = elements batched so far, state carried exactly one slice. "
+                "C part 2 (simulator): five of these programs (all but the keyed lookup; each slice also reports the batch it "
+                "saw) built on sim_input/sim_output, compiled with flow.sim().compiled() (SimBuilder::batch, the snapshot hooks "
+                "and the tick-cycle state through the simulator's code generator) and run under CompiledSim::exhaustive on "
+                "small inputs (1-5 elements, all queued before the first tick; fixed + seeded scenarios): EVERY execution the "
+                "simulator explores is recorded; the oracles on the real observations: the batches of the slices partition "
+                "the input in order (per input for two hooks), every scheduled slice releases something, count snapshots "
+                "never go back and never exceed the input, the use::state / use::state_null outputs are exactly the body "
+                "applied to the value carried from the previous slice; the Lean driver judges the same executions with "
+                "runBatches / runSliced / simSnapsOk (a rejected execution is a disagreement). The histogram records whether "
+                "executions with re-released snapshots, snapshots ahead of / behind the batches, and one-sided empty batches "
+                "were reached."),
+    level_note=("The simulator part explores bounded scenarios only (that is what the property's quantifier asks for); it "
+                "judges executions, it does not compare the SET of explored executions with the model's schedule space "
+                "(completeness of exploration is C37). hooks_same_point is proved for the production schedule only: in the "
+                "simulator the hooks of one slice are released together in one tick but a snapshot hook decides its version "
+                "independently of the batch hook (observed: snapshots ahead of and behind the batched prefix), so 'same "
+                "point' there means 'same tick', which the model has by construction (one step = one slice). NoOrder "
+                "batch hooks, keyed batch hooks and use::atomic hooks (see C34) are not in the C31 models; the hook "
+                "implementations themselves are tied in C36."),
     trusted_base=["hand-written model of the sliced! macro expansion (pinned text, not translated)",
-                  "hydro_lang emit_core lowering of Batch / DeferTick / CycleSource for the 6 corpus flows: exercised and diffed, not translated"],
-    assumptions=["production code generation: one DFIR tick per slice, a batch is what arrived in that tick"],
+                  "hydro_lang emit_core lowering of Batch / DeferTick / CycleSource for the 6 corpus flows (production) and the 5 simulator flows: exercised and diffed, not translated",
+                  "bolero's exhaustive driver enumerates the simulator's decision space (C37)"],
+    assumptions=["production code generation: one DFIR tick per slice, a batch is what arrived in that tick",
+                 "simulator scenarios: all input is sent before the first tick and the run ends at quiescence (SimReceiver::collect)"],
 )
